@@ -66,9 +66,14 @@ def get_errors_contract():
     def make(I):
         import openapi_python_client as opc
         from pyvc.absdata import LazyMap
-        e = [SOpaque(f"err{i}") for i in range(5)]
-        c1 = SOpaque("coll1", attrs={"parse_errors": SList([e[0]])})
-        c2 = SOpaque("coll2", attrs={"parse_errors": SList([e[1]])})
+        # two warnings of ONE generated operation carry the same header (it names the operation, not the problem); an operation
+        # under two tags has its warning in both collections
+        hdr = ["WARNING parsing GET /x within a.", "WARNING parsing GET /x within a.", "WARNING parsing GET /y within b.", "", "", ""]
+        e = [SOpaque(f"err{i}", attrs={"header": hdr[i], "detail": f"d{i}"}) for i in range(6)]
+        c1 = SOpaque("coll1", attrs={"parse_errors": SList([e[0], e[1]])})
+        c2 = SOpaque("coll2", attrs={"parse_errors": SList([e[5]])})
+        e[5].attrs["header"] = "WARNING parsing GET /y within b."
+        e[2].attrs["header"] = "Unable to parse schema /components/schemas/X"
         by_tag = LazyMap("by_tag", None, [("a", c1), ("b", c2)], complete=True)
         openapi = SOpaque("openapi", attrs={"endpoint_collections_by_tag": by_tag, "errors": SList([e[2], e[3]])})
         proj = SObj(opc.Project, {"openapi": openapi, "errors": SList([e[4]])})
@@ -76,10 +81,11 @@ def get_errors_contract():
 
     def post(ctx):
         v = ctx.value
-        return isinstance(v, SList) and len(v.items) == 5 and all(any(x is y for y in v.items) for x in ctx.inputs["all"])
+        return isinstance(v, SList) and len(v.items) == 6 and all(any(x is y for y in v.items) for x in ctx.inputs["all"])
     cl = Clause("all-sources-concatenated", post, statement="the returned list contains every endpoint parse error of every tag, "
                                                             "every schema/parameter error and every project error (nothing "
-                                                            "filtered)", props=["C07"])
+                                                            "filtered -- in particular not by header: several warnings of one "
+                                                            "operation share it)", props=["C07"])
     return FnContract("openapi_python_client:Project._get_errors", [Case("generic", make, [cl], raises=(), props=["C07"])])
 
 
